@@ -52,6 +52,17 @@ Definition jump_alternatives (valid : list Z) (dst : V -> Z) : option (list (Z *
   | kept => Some (map (fun t => (t, fun v => dst v =? t)) kept)
   end.
 
+(* the inputs whose destination is none of the valid ones (fix: a branch of their own, kept unless the solver refutes
+   it, on which the JUMP is executed again with a concrete invalid destination and halts).  It exists only when some
+   valid destination is kept: otherwise the whole state has already halted (jump_alternatives = None). *)
+Definition jump_invalid_cond (valid : list Z) (dst : V -> Z) : cnd :=
+  fun v => forallb (fun t => negb (dst v =? t)) valid.
+Definition jump_invalid_alternative (valid : list Z) (dst : V -> Z) : option cnd :=
+  match jump_alternatives valid dst with
+  | None => None
+  | Some _ => if jump_invalid_keep (chk (jump_invalid_cond valid dst)) then Some (jump_invalid_cond valid dst) else None
+  end.
+
 (* ---- vm.assert* (hevm_cheat_code.handle): c is the asserted relation.  (true, k): a state that ends as
    a failed assertion, under the additional constraint k; (false, k): the state that goes on. *)
 Definition assert_alternatives (c : cnd) : list (bool * cnd) :=
